@@ -5,7 +5,9 @@ ranging over `Proved`) refines the abstract byte buffer (`Nv.Spec.C11`, = what `
 operation sequence of the shared interface — same results, errors, panics and unread contents after every step —
 except `Unread*` issued while a `Grow` is the last operation that did not (re)assign `lastRead`
 (the property's own exclusion; pure observers `Len/Bytes/String` in between do not lift it).
-`ReWrite` and `NewSizedBuffer` have their own theorems. All statements are over all inputs and all histories.
+Scripted readers are those whose output does not depend on the size of the slice they are offered (chunks ≤ MinRead, or
+greedy): that size is `cap-len`, i.e. capacity policy, which the property leaves open (`Cap()` is not compared);
+`witness_reader_depends_on_space` shows what happens outside. `ReWrite` and `NewSizedBuffer` have their own theorems. All statements are over all inputs and all histories.
 -/
 namespace Nv.C11
 open Spec
@@ -78,17 +80,37 @@ theorem texbuf_refines_newBuffer (c : Cfg) (hc : Proved c) (content : Bytes) (ex
     ⟨⟨by simp [St.ofBytes], by simp [St.ofBytes], by simpa [St.ofBytes] using hfit, by simp [St.ofBytes]⟩,
      by simp [St.ofBytes, SSt.ofBytes], fun _ => rfl⟩ hcom hun hmem
 
-/-- `NewSizedBuffer(size)`: an empty buffer of at least (here: exactly) the requested capacity, which then behaves
-    like an empty `bytes.Buffer` -/
-theorem sized_buffer (size : Nat) (hfit : size ≤ allocLimit) :
-    (St.sized size).data = [] ∧ size ≤ (St.sized size).cap ∧ Rel false (St.sized size) SSt.empty :=
-  ⟨rfl, Nat.le_refl _, ⟨by simp [St.sized], by simp [St.sized], by simpa [St.sized] using hfit, by simp [St.sized]⟩,
-    rfl, fun _ => rfl⟩
+/-- the state `NewSizedBuffer(size)` ends in is related to the empty abstract buffer -/
+theorem sized_rel (size : Nat) (hfit : size ≤ allocLimit) : Rel false (St.sized size) SSt.empty :=
+  ⟨⟨by simp [St.sized], by simp [St.sized], by simpa [St.sized] using hfit, by simp [St.sized]⟩, rfl, fun _ => rfl⟩
+
+/-- the constructor's body (`make([]byte, size)`, `&Buffer{buf: buf}`, `b.Reset()`) evaluates to `St.sized` -/
+theorem newSizedBuffer_eq (size : Int) (h0 : 0 ≤ size) (h1 : size ≤ (allocLimit : Int)) :
+    newSizedBuffer size = (St.sized size.toNat, .ok) := by
+  have hc : ¬ (size < 0 ∨ size > (allocLimit : Int)) := by omega
+  unfold newSizedBuffer
+  rw [if_neg hc]
+  rfl
+
+/-- **NewSizedBuffer** (derived from the model of its body, not from a definition): for every admissible size the
+    call returns normally with an empty buffer (`Len() = 0`, `Bytes()` empty) whose capacity is at least the requested
+    size, and which from then on behaves like an empty `bytes.Buffer` (`texbuf_refines_sized`) -/
+theorem sized_buffer (size : Int) (h0 : 0 ≤ size) (h1 : size ≤ (allocLimit : Int)) :
+    (newSizedBuffer size).2 = .ok ∧ (newSizedBuffer size).1.data = [] ∧ (newSizedBuffer size).1.buf.length = 0 ∧
+    size ≤ ((newSizedBuffer size).1.cap : Int) ∧ Rel false (newSizedBuffer size).1 SSt.empty := by
+  rw [newSizedBuffer_eq size h0 h1]
+  refine ⟨rfl, rfl, rfl, ?_, sized_rel _ (by omega)⟩
+  simp only [St.sized]; omega
+
+/-- a negative size, or one the runtime cannot allocate, panics in `make` (no buffer exists afterwards) -/
+theorem sized_buffer_invalid (size : Int) (h : size < 0 ∨ size > (allocLimit : Int)) :
+    (newSizedBuffer size).2 = .panic .makeslice := by
+  unfold newSizedBuffer; rw [if_pos h]
 
 theorem texbuf_refines_sized (c : Cfg) (hc : Proved c) (size : Nat) (hfit : size ≤ allocLimit) (ops : List Op)
     (hcom : ∀ op ∈ ops, Common c op) (hun : NoUnreadAfterGrow false ops) (hmem : MemOk c (St.sized size) ops) :
     outs (implObs c) (St.sized size) ops = outs specObs SSt.empty ops :=
-  texbuf_refines_from c hc ops false _ _ (sized_buffer size hfit).2.2 hcom hun hmem
+  texbuf_refines_from c hc ops false _ _ (sized_rel size hfit) hcom hun hmem
 
 /-- each of the five growth paths keeps the unread bytes in front of the write index and makes room for `n` more;
     a failed growth (`ErrTooLarge`) leaves them untouched. Holds for every configuration. -/
@@ -191,6 +213,16 @@ theorem rewrite_out_of_range (s : St) (pos : Int) (p : Bytes) (h : pos < 0 ∨ p
     rewrite s pos p = (s, .panic .sliceBounds) := by
   unfold rewrite; simp only [h, if_true]
 
+/-- the same on the observable `Bytes()`: unread byte `j` is `p[off+j-pos]` where addressed, unchanged elsewhere
+    (addresses count from the start of the storage, i.e. include the `off` bytes already read) -/
+theorem rewrite_bytes (s : St) (pos : Nat) (p : Bytes) (hpos : pos ≤ s.buf.length) (j : Nat)
+    (hj : s.off + j < s.buf.length) :
+    (rewrite s pos p).1.data[j]? =
+      if pos ≤ s.off + j ∧ s.off + j < pos + p.length then p[s.off + j - pos]? else s.data[j]? := by
+  have k := rewrite_exact s pos p hpos
+  simp only [St.data, k.2.2.1, List.getElem?_drop]
+  exact k.2.2.2.2.2 (s.off + j) hj
+
 /-! ### non-vacuity -/
 
 example : Proved ⟨.unsigned, .half, 64, 512⟩ := by decide
@@ -209,7 +241,7 @@ example : (final (implObs ⟨.unsigned, .half, 64, 512⟩) St.zero exampleOps).d
 
 example : (64 : Nat) ≤ allocLimit := by decide
 example : Rel false St.zero SSt.empty := rel_zero
-example : Rel false (St.sized 16) SSt.empty := (sized_buffer 16 (by decide)).2.2
+example : Rel false (newSizedBuffer 16).1 SSt.empty := (sized_buffer 16 (by decide) (by decide)).2.2.2.2
 /-- ReWrite of the length prefix of a frame, as the callers in mpb use it -/
 example : (rewrite ⟨[0, 0, 1, 2, 3], 0, 8, 0, false⟩ 0 [0, 3]).1.buf = [0, 3, 1, 2, 3] := by decide
 /-- ReWrite addresses the storage from its start: after one byte was read, position 1 is the first unread byte -/
@@ -246,5 +278,40 @@ theorem not_refines_signed :
 theorem witness_unread_after_grow :
     outs (implObs ⟨.unsigned, .half, 64, 512⟩) St.zero [.write [1, 2, 3], .readByte, .grow 64, .unreadByte]
       ≠ outs specObs SSt.empty [.write [1, 2, 3], .readByte, .grow 64, .unreadByte] := by decide
+
+/-! ### why the exclusion is "until `lastRead` is reassigned", not only "directly after" -/
+
+/-- a pure observer between `Grow` and `UnreadByte` does not lift the hazard: the literal wording would admit this script -/
+theorem witness_unread_after_grow_observer :
+    outs (implObs ⟨.unsigned, .half, 64, 512⟩) St.zero [.write [1, 2, 3], .readByte, .grow 64, .len, .unreadByte]
+      ≠ outs specObs SSt.empty [.write [1, 2, 3], .readByte, .grow 64, .len, .unreadByte] := by decide
+
+def policyScript : List Op :=
+  [.write (List.replicate 60 7), .read 50, .grow 30, .readByte, .grow 100, .len, .unreadByte, .bytes]
+
+/-- and what the answer there depends on is the capacity policy alone: the two slide guards — both inside `Proved`,
+    both refining the abstract buffer on every admissible script — answer this script differently, because the
+    earlier `Grow(30)` slid (cap 64) under one and reallocated (cap 158) under the other, so that `Grow(100)`
+    reslices (offset kept, byte restored) or moves the data (offset 0, nothing restored). The set of scripts on which a
+    `bytes.Buffer`'s answer can depend on its growth policy is exactly: `Unread*` while `lastRead` is still the one a read
+    before a `Grow` left (`off` enters a result only through `off > 0` / `off >= lastRead` in `Unread*`; the invariant
+    `lastRead valid ⇒ off ≥ size` is broken only by `Grow` and re-established by every operation that assigns
+    `lastRead`; `Len/Bytes/String` assign nothing). -/
+theorem witness_unread_depends_on_capacity_policy :
+    outs (implObs ⟨.unsigned, .half, 64, 512⟩) St.zero policyScript
+      ≠ outs (implObs ⟨.unsigned, .full, 64, 512⟩) St.zero policyScript := by decide
+
+/-! ### readers whose output depends on the size of the slice they are offered -/
+
+/-- A reader that hands over up to 6 bytes per call when `MinRead = 4`: how much it delivers depends on the space
+    `cap-len` the buffer offers (4, then 8 after reallocating to 12) — the model takes 4+6 = 10 bytes where a buffer
+    that always offers ≥ 6 would take 12. That size is capacity policy, outside the contract like `Cap()`: such
+    readers are outside `Common`. The same bytes delivered always give the same contents and results (`texbuf_refines`). -/
+theorem witness_reader_depends_on_space :
+    ¬ Common ⟨.unsigned, .half, 2, 4⟩ (.readFrom ⟨List.replicate 20 1, [6, 6], 0, .eof, false⟩) ∧
+    (outs (implObs ⟨.unsigned, .half, 2, 4⟩) St.zero [.readFrom ⟨List.replicate 20 1, [6, 6], 0, .eof, false⟩]).map (·.1)
+      = [.nErr 10 .nil] ∧
+    (outs specObs SSt.empty [.readFrom ⟨List.replicate 20 1, [6, 6], 0, .eof, false⟩]).map (·.1) = [.nErr 12 .nil] := by
+  decide
 
 end Nv.C11
